@@ -12,22 +12,24 @@ TB = ("Trusted: Lean 4.33 kernel; axioms of every property theorem printed per r
 
 CLAIMED = {
     "C03": dict(
-        text="Proof (width 0) / proof-partial (width >= 1): PrettySerializer and TextWrappingSerializer are modelled in Lean "
-             "(Model/Pretty.lean, Model/Wrapping.lean: writer with offset tracking and newline stripping, line fitting, "
-             "_serialize_text/_over_lines/_consolidate_text_lines, _required_space*, bounded _fetch_following, the two "
-             "whitespace-legitimacy predicates, xml:space handling). Proved for every whitespace-reduced tree, every whitespace "
-             "indentation, alignment on/off and every accepted prefix map: reading the indentation-only output back (C02 "
-             "reader) and reducing whitespace (C07 reduction) gives the original tree (c03_pretty_transparent, composed with "
-             "prefix collection in c03_serialize_pretty_transparent); inserted layout is whitespace only; non-whitespace "
-             "characters are unaltered; xml:space=preserve subtrees are written by the plain serializer without layout. "
-             "For width >= 1 the wrapping model is byte-identical to the implementation on every explored case and the Lean "
-             "side evaluates build+reduce of the model output per case (theorems for the wrapping model in Props/C03Wrap.lean "
-             "when present). Tie to code: exact output string of the real serializers == compiled model for reduced "
-             "mixed-content trees x 4 indentations x 15 widths x alignment x namespaces, from the root and from subtrees; "
-             "property oracle: Document(output, reduce_whitespace=True) equals the original.",
-        note=TB + "Partial: the all-input theorem covers width 0; for width >= 1 see DESIGN.md (what Props/C03Wrap.lean "
-             "proves). Fixed finding: wrapping looked beyond the serialized subtree (8870f79).",
-        technique="Lean 4 theorems (laid-out tree read back by the C02 reader and reduced by the C07 reduction) + byte-exact differential correspondence of both serializer models",
+        text="Proof: PrettySerializer and TextWrappingSerializer are modelled in Lean (Model/Pretty.lean, Model/Wrapping.lean: "
+             "writer with offset tracking and newline stripping, line fitting, _serialize_text/_over_lines/"
+             "_consolidate_text_lines, _required_space*, bounded _fetch_following, the two whitespace-legitimacy predicates, "
+             "xml:space handling incl. the line-fitting serializer's flags). Proved for every whitespace-reduced tree, every "
+             "whitespace indentation, alignment on/off and every accepted prefix map: reading the output back (C02 reader) "
+             "and reducing whitespace (C07 reduction) gives the original tree - for width 0 (c03_pretty_transparent) and for "
+             "every width >= 1 (c03_wrapped_transparent_partial, under the one hypothesis that the indentation string "
+             "contains no line break: the unrestricted statement is false, counterexample kept and recorded as open finding "
+             "newline-in-indentation); inserted layout is whitespace only; non-whitespace characters are unaltered; "
+             "xml:space=preserve subtrees are written by the plain serializer without layout. Tie to code: exact output string "
+             "of the real serializers == compiled model for reduced mixed-content trees x 7 indentations x 19 widths x "
+             "alignment x namespaces, from the root and from subtrees, plus a stream of xml:space nestings below inline "
+             "elements; property oracle: Document(output, reduce_whitespace=True) equals the original.",
+        note=TB + "Two defects were found by the proof attempt for the wrapping model (counterexamples from the model, replayed "
+             "on the implementation): indentation-written-mid-line (fixed, d23109d) and newline-in-indentation (open). Fixed "
+             "earlier: wrapping looked beyond the serialized subtree (8870f79). Fuel: the wrapping model takes fuel; the "
+             "theorem assumes the run ended (= .ok), the harness reports any fuel exhaustion as a mismatch.",
+        technique="Lean 4 theorems (laid-out tree read back by the C02 reader and reduced by the C07 reduction; Hoare-style partial correctness of the writer state machine) + byte-exact differential correspondence of both serializer models",
         design="3/C03",
     ),
     "C04": dict(
